@@ -117,6 +117,19 @@ class C29(LLCheck):
                     one = [connect_ind(interval=(3200 if name == "procedure" else 24), timeout=(3200 if name == "procedure" else 72))] \
                         + ["ev 0"] * (1 + quiet) + end()
                     cases.append(mk("end_" + name, v, ["run"] + one + one + ["ev 0"]))
+            # 1b. two (three) connections in ONE case with DIFFERENT causes of the end: the reason of closed must be the cause of
+            #     its own connection, never a left-over of an earlier one (clause closed_reason)
+            def conn(name, quiet=1):
+                slow = name == "procedure"
+                return [connect_ind(interval=(3200 if slow else 24), timeout=(3200 if slow else 72))] + ["ev 0"] * (1 + quiet) + ENDINGS[name]()
+            causes = [n for n in ENDINGS if n != "none" and (n != "procedure" or ctx.thorough or v == "base")]
+            for a in causes:
+                for b in causes:
+                    if a != b:
+                        cases.append(mk("two_%s_%s" % (a, b), v, ["run"] + conn(a) + conn(b) + ["ev 0"]))
+            for k in range(6 if not ctx.thorough else 40):
+                seq = [rng.choice(causes) for _ in range(3)]
+                cases.append(mk("three_" + "_".join(seq), v, ["run"] + conn(seq[0], 0) + conn(seq[1], 2) + conn(seq[2], 1) + ["ev 0"]))
             # 2. connection attempts: no connection event at all / the first one late
             for missed in (0, 1, 4, 5, 6, 7):
                 cases.append(mk("attempt", v, ["run", connect_ind()] + ["timeout"] * missed + ["ev 0", "ev 0", "ev 0 " + TERMINATE, connect_ind(), "ev 0"]))
